@@ -1,7 +1,7 @@
 (* Real-number lemmas for M_rodrigues.v (C10): the forward map. *)
 From Coq Require Import ZArith Reals Lra Psatz List Bool Lia Nsatz.
 From PW Require Import Num NumR Vec Mat Result.
-From PW.model Require Import M_rodrigues.
+From PW.model Require Import M_rodrigues M_rodrigues_spec.
 From PW.proofs Require Import P_vec P_mat.
 Import ListNotations.
 Local Open Scope R_scope.
@@ -24,8 +24,6 @@ Ltac runf_in H :=
        n0 n1 n2 nofZ nadd nsub nmul ndiv nneg nabs nsqrt nltb nleb neqb ROps
        a00 a01 a02 a10 a11 a12 a20 a21 a22 vx vy vz] in H.
 
-Definition proper (m : mat3 R) : Prop :=
-  m3mul ROps (m3transpose m) m = I3 ROps /\ m3mul ROps m (m3transpose m) = I3 ROps /\ m3det ROps m = 1.
 
 Lemma proper_I3 : proper (I3 ROps).
 Proof. repeat split; try (mat3_eq; ring). munf; ring. Qed.
